@@ -549,7 +549,7 @@ func (s *scanningState) scan(line []byte) (bool, error) {
 				}
 				s.Goroutines = append(s.Goroutines, g)
 				s.state = gotRoutineHeader
-				s.prefix = append([]byte{}, match[1]...)
+				s.prefix = append(append([]byte{}, s.prefix...), match[1]...)
 				return true, nil
 			}
 		}
